@@ -1,0 +1,29 @@
+//go:build verif
+
+// Package verifhook provides named observation points for the external
+// verification harness. It is only active when built with the "verif" tag;
+// otherwise At compiles to an empty, inlinable function.
+package verifhook
+
+import "sync/atomic"
+
+var fn atomic.Value // func(point string, args ...any)
+
+// Set installs (or, with nil, removes) the hook function. The function may
+// block: the harness uses that to schedule goroutines deterministically.
+func Set(f func(point string, args ...any)) {
+	if f == nil {
+		f = func(string, ...any) {}
+	}
+	fn.Store(f)
+}
+
+// At reports that execution reached the named point.
+func At(point string, args ...any) {
+	if f, ok := fn.Load().(func(string, ...any)); ok && f != nil {
+		f(point, args...)
+	}
+}
+
+// Enabled reports whether hooks are compiled in.
+const Enabled = true
